@@ -661,6 +661,10 @@ def run_cases(cases, ctx):
     obs = _parallel_obs(cases)
     shim = _Shim(mod, {id(c): o for c, o in zip(cases, obs)})
     res = lib.standard_run(shim, cases, ctx)
+    for v in res['violations'][:20]:        # describe each violation by a fresh run of its (minimised) case
+        o2 = _run_one(v['case'])
+        if o2.get('runs'):
+            v['summary'], v['signature'], v['what'] = describe(v['case'], o2), signature(v['case'], o2), what(v['case'], o2)
     runs, keys, hist = 0, set(), {}
     for c, o in zip(cases, obs):
         for r in o.get('runs', []):
